@@ -2940,6 +2940,22 @@ func (d *Document) serializeDocument() error {
 	return nil
 }
 
+// nextRelationshipID 为关系列表生成一个尚未使用的关系ID。
+// 取现有 rId<N> 中最大的 N 加一（不小于 minNext），因此对于打开的、
+// ID 不连续或不从 rId1 开始的文档也不会与已有关系冲突。
+func nextRelationshipID(rels []Relationship, minNext int) string {
+	next := minNext
+	for _, rel := range rels {
+		if !strings.HasPrefix(rel.ID, "rId") {
+			continue
+		}
+		if n, err := strconv.Atoi(rel.ID[len("rId"):]); err == nil && n >= next {
+			next = n + 1
+		}
+	}
+	return fmt.Sprintf("rId%d", next)
+}
+
 // serializeContentTypes 序列化内容类型
 func (d *Document) serializeContentTypes() {
 	data, _ := xml.MarshalIndent(d.contentTypes, "", "  ")
